@@ -139,6 +139,31 @@ func c04(c *Ctx) {
 		}
 		doc := h.Obj("x", h.FloatD(3), "xs", h.SliceAny(h.FloatD(1), h.FloatD(2)))
 		three := big.NewRat(3, 1)
+		// numeric STRINGS under the spellings decimal.NewFromString accepts: an explicit plus sign, an
+		// exponent with a plus, upper-case E, a leading point — as a literal string, as data, as the receiver
+		for _, ns := range []sp{{"+2.5", big.NewRat(5, 2)}, {"1e+3", big.NewRat(1000, 1)}, {"2.5E+2", big.NewRat(250, 1)}, {"+7", big.NewRat(7, 1)}, {".5", big.NewRat(1, 2)}, {"-.5", big.NewRat(-1, 2)},
+			{"5.", big.NewRat(5, 1)}, {"1E2", big.NewRat(100, 1)}, {"+0", new(big.Rat)}, {"1e-2", big.NewRat(1, 100)}, {"007", big.NewRat(7, 1)}} {
+			sdoc := h.Obj("x", h.FloatD(3), "xs", h.SliceAny(h.FloatD(1), h.FloatD(2)), "s", h.Str(ns.text), "ss", h.SliceAny(h.Str(ns.text), h.FloatD(1)))
+			for _, fn := range bins[:3] {
+				addBin(fn, h.FloatD(3), "3", three, "\""+ns.text+"\"", ns.val, sdoc, "numeric-string-spellings")
+				addBin(fn, h.FloatD(3), "3", three, "$.s", ns.val, sdoc, "numeric-string-spellings")
+				want, _, _ := fn.f(ns.val, three)
+				ec := c.AddEval("$.s."+fn.name+"(3)", sdoc, "numeric-string-spellings", false, true)
+				ec.Check = exactly(want)
+			}
+			for _, q := range []string{"$.xs.Sum(\"" + ns.text + "\")", "$.xs.Sum($.s)"} {
+				ec := c.AddEval(q, sdoc, "numeric-string-spellings", false, true)
+				ec.Check = exactly(new(big.Rat).Add(big.NewRat(3, 1), ns.val))
+			}
+			ec := c.AddEval("$.ss.Sum()", sdoc, "numeric-string-spellings", false, true)
+			ec.Check = exactly(new(big.Rat).Add(big.NewRat(1, 1), ns.val))
+			mx := ns.val
+			if mx.Cmp(big.NewRat(2, 1)) < 0 {
+				mx = big.NewRat(2, 1)
+			}
+			ec = c.AddEval("$.xs.Maximum(\""+ns.text+"\")", sdoc, "numeric-string-spellings", false, true)
+			ec.Check = exactly(mx)
+		}
 		for _, s := range spells {
 			for _, fn := range bins {
 				addBin(fn, h.FloatD(3), "3", three, s.text, s.val, doc, "literal-spellings")
